@@ -63,7 +63,7 @@ def judge(hfile, wdir, data, expected_order, header_in=None):
         if os.path.exists(f):
             os.remove(f)
     open(fin, "wb").write(data)
-    rc, out, err = shb([hfile, "read", fin, "write", o1, "read", o1, "write", o2], timeout=30)
+    rc, out, err = shb([hfile, "read", fin, "write", o1, "read", o1, "write", o2], timeout=90)
     txt = out.decode("latin-1")
     sevs = [l for l in txt.split("\n") if l.startswith("SEV ")]
     if rc != 0:
